@@ -196,6 +196,11 @@ def make_store(T, name='in.sgz'):
     total = spec.HEADER_BYTES + T.data_len + footer_len(T)
     content = LazyBytes(total, [(0, total, FileSrc(T.fid), 0), (0, spec.HEADER_BYTES, T.header.snapshot(), 0)], True)
     T.total = total
+    # concrete / symbolic content for some footer arrays (irregular files: the inline-number array defines the mask)
+    for f, arr in getattr(T, 'footer_arrays', {}).items():
+        k = sorted(T.stored).index(f)
+        b = arr.astype('i4').tobytes()
+        content.layers.append((spec.HEADER_BYTES + T.data_len + k * T.stride, b.length, b, 0))
     st = shenv.FileStore(content, name)
     return st
 
